@@ -205,7 +205,7 @@ def rangeFile (size : Nat) : List Sec → Nat → Nat → Out (Nat × Nat)
       if s.prd ≤ stop ∧ stop ≤ size then
         let so := rva - s.va
         let slen := stop - s.prd
-        if so ≤ slen ∧ slen - so ≥ min then .ok (s.prd + so, slen - so)
+        if so < slen ∧ slen - so ≥ min then .ok (s.prd + so, slen - so)
         else if min > vend - rva then .err .bounds else .err .zeroFill
       else .err .invalid
     else rangeFile size rest rva min
